@@ -2,8 +2,8 @@ package c13
 
 import (
 	"fmt"
-	"strings"
 	"net/http"
+	"strings"
 	"sync"
 	"testing"
 	"time"
